@@ -297,10 +297,13 @@ namespace Dune {
           else return round_t<I, T, cstyle, downward>::round(val, epsilon);
         }
       };
+      // vectors: applied to every component.  The loops live in helper classes and round_t/trunc_t are
+      // specialised per rounding style (as eq_t is per compare style): a partial specialisation for
+      // vectors that leaves rstyle open is ambiguous with the scalar specialisations above.
       template<class I, class T, CmpStyle cstyle, RoundingStyle rstyle>
-      struct round_t<std::vector<I>, std::vector<T>, cstyle, rstyle> {
+      struct round_t_std_vec {
         static std::vector<I>
-        round(const T &val,
+        round(const std::vector<T> &val,
               typename EpsilonType<T>::Type epsilon = (DefaultEpsilon<T, cstyle>::value())) {
           unsigned int size = val.size();
           std::vector<I> res(size);
@@ -309,10 +312,18 @@ namespace Dune {
           return res;
         }
       };
+      template<class I, class T, CmpStyle cstyle>
+      struct round_t<std::vector<I>, std::vector<T>, cstyle, downward> : round_t_std_vec<I, T, cstyle, downward> {};
+      template<class I, class T, CmpStyle cstyle>
+      struct round_t<std::vector<I>, std::vector<T>, cstyle, upward> : round_t_std_vec<I, T, cstyle, upward> {};
+      template<class I, class T, CmpStyle cstyle>
+      struct round_t<std::vector<I>, std::vector<T>, cstyle, towardZero> : round_t_std_vec<I, T, cstyle, towardZero> {};
+      template<class I, class T, CmpStyle cstyle>
+      struct round_t<std::vector<I>, std::vector<T>, cstyle, towardInf> : round_t_std_vec<I, T, cstyle, towardInf> {};
       template<class I, class T, int n, CmpStyle cstyle, RoundingStyle rstyle>
-      struct round_t<Dune::FieldVector<I, n>, Dune::FieldVector<T, n>, cstyle, rstyle> {
+      struct round_t_fvec {
         static Dune::FieldVector<I, n>
-        round(const T &val,
+        round(const Dune::FieldVector<T, n> &val,
               typename EpsilonType<T>::Type epsilon = (DefaultEpsilon<T, cstyle>::value())) {
           Dune::FieldVector<I, n> res;
           for(int i = 0; i < n; ++i)
@@ -320,6 +331,14 @@ namespace Dune {
           return res;
         }
       };
+      template<class I, class T, int n, CmpStyle cstyle>
+      struct round_t<Dune::FieldVector<I, n>, Dune::FieldVector<T, n>, cstyle, downward> : round_t_fvec<I, T, n, cstyle, downward> {};
+      template<class I, class T, int n, CmpStyle cstyle>
+      struct round_t<Dune::FieldVector<I, n>, Dune::FieldVector<T, n>, cstyle, upward> : round_t_fvec<I, T, n, cstyle, upward> {};
+      template<class I, class T, int n, CmpStyle cstyle>
+      struct round_t<Dune::FieldVector<I, n>, Dune::FieldVector<T, n>, cstyle, towardZero> : round_t_fvec<I, T, n, cstyle, towardZero> {};
+      template<class I, class T, int n, CmpStyle cstyle>
+      struct round_t<Dune::FieldVector<I, n>, Dune::FieldVector<T, n>, cstyle, towardInf> : round_t_fvec<I, T, n, cstyle, towardInf> {};
     } // end namespace Impl
     template<class I, class T, CmpStyle cstyle, RoundingStyle rstyle>
     I round(const T &val, typename EpsilonType<T>::Type epsilon /*= DefaultEpsilon<T, cstyle>::value()*/)
@@ -402,8 +421,9 @@ namespace Dune {
           else return trunc_t<I, T, cstyle, downward>::trunc(val, epsilon);
         }
       };
+      // vectors: applied to every component (see round_t)
       template<class I, class T, CmpStyle cstyle, RoundingStyle rstyle>
-      struct trunc_t<std::vector<I>, std::vector<T>, cstyle, rstyle> {
+      struct trunc_t_std_vec {
         static std::vector<I>
         trunc(const std::vector<T> &val,
               typename EpsilonType<T>::Type epsilon = (DefaultEpsilon<T, cstyle>::value())) {
@@ -414,8 +434,16 @@ namespace Dune {
           return res;
         }
       };
+      template<class I, class T, CmpStyle cstyle>
+      struct trunc_t<std::vector<I>, std::vector<T>, cstyle, downward> : trunc_t_std_vec<I, T, cstyle, downward> {};
+      template<class I, class T, CmpStyle cstyle>
+      struct trunc_t<std::vector<I>, std::vector<T>, cstyle, upward> : trunc_t_std_vec<I, T, cstyle, upward> {};
+      template<class I, class T, CmpStyle cstyle>
+      struct trunc_t<std::vector<I>, std::vector<T>, cstyle, towardZero> : trunc_t_std_vec<I, T, cstyle, towardZero> {};
+      template<class I, class T, CmpStyle cstyle>
+      struct trunc_t<std::vector<I>, std::vector<T>, cstyle, towardInf> : trunc_t_std_vec<I, T, cstyle, towardInf> {};
       template<class I, class T, int n, CmpStyle cstyle, RoundingStyle rstyle>
-      struct trunc_t<Dune::FieldVector<I, n>, Dune::FieldVector<T, n>, cstyle, rstyle> {
+      struct trunc_t_fvec {
         static Dune::FieldVector<I, n>
         trunc(const Dune::FieldVector<T, n> &val,
               typename EpsilonType<T>::Type epsilon = (DefaultEpsilon<T, cstyle>::value())) {
@@ -425,6 +453,14 @@ namespace Dune {
           return res;
         }
       };
+      template<class I, class T, int n, CmpStyle cstyle>
+      struct trunc_t<Dune::FieldVector<I, n>, Dune::FieldVector<T, n>, cstyle, downward> : trunc_t_fvec<I, T, n, cstyle, downward> {};
+      template<class I, class T, int n, CmpStyle cstyle>
+      struct trunc_t<Dune::FieldVector<I, n>, Dune::FieldVector<T, n>, cstyle, upward> : trunc_t_fvec<I, T, n, cstyle, upward> {};
+      template<class I, class T, int n, CmpStyle cstyle>
+      struct trunc_t<Dune::FieldVector<I, n>, Dune::FieldVector<T, n>, cstyle, towardZero> : trunc_t_fvec<I, T, n, cstyle, towardZero> {};
+      template<class I, class T, int n, CmpStyle cstyle>
+      struct trunc_t<Dune::FieldVector<I, n>, Dune::FieldVector<T, n>, cstyle, towardInf> : trunc_t_fvec<I, T, n, cstyle, towardInf> {};
     } // namespace Impl
     template<class I, class T, CmpStyle cstyle, RoundingStyle rstyle>
     I trunc(const T &val, typename EpsilonType<T>::Type epsilon /*= DefaultEpsilon<T, cstyle>::value()*/)
